@@ -157,6 +157,12 @@ def gen_apu(rng):
             'PM10_g_per_kg': rng.choice([0.0, rng.uniform(0.0, 0.04), rng.uniform(0.03, 0.6)])}
 
 
+def carbon_ok(a):
+    """the hypothesis of C01_amounts_nonneg_partial on an APU record (proofs/C01_Proofs.v:carbon_ok)"""
+    return ((44 / 28) * a['CO_g_per_kg'] + (44 / (82 / 5)) * a['HC_g_per_kg']
+            + ((44 / (55 / 4)) * 0.05 + (44 / 12) * 0.95 * 0.95) * a['PM10_g_per_kg']) <= 3160
+
+
 def gen_fuel(rng):
     r = rng.random()
     if r < 0.4:
@@ -247,7 +253,10 @@ class SynthPM:
 
 
 def load_config(cfg):
+    import os
+
     from AEIC.config import Config
+    os.environ['AEIC_PATH'] = str(REPO / 'tests/data')
     Config.reset()
     Config.load(emissions=dict(cfg), data_path_overrides=[REPO / 'tests/data'])
 
@@ -566,6 +575,8 @@ def expected_refusal(case):
 
 
 F9_SIGNATURE = 'apu-reads-missing-sox-index'
+FC11A_SIGNATURE = 'pmvol-foa3-thrust-percentage-attribute-error'
+FC01A_SIGNATURE = 'meem-nan-low-cruise-altitude'
 
 
 def is_f9(case, r):
@@ -575,24 +586,57 @@ def is_f9(case, r):
             and cfg['apu_enabled'] and a is not None and a['fuel_kg_per_s'] != 0.0)
 
 
-def tree_has_f9():
-    """Which behaviour does this tree have?  (before / after the proposed fix F9)"""
-    case = {'cfg': {**DEFAULT_CFG, 'sox_enabled': False, 'lifecycle_enabled': False},
-            'traj': {'fuel_mass': [100.0, 90.0, 80.0], 'altitude': [0.0, 3000.0, 0.0], 'tas': [120.0, 200.0, 120.0],
-                     'fuel_flow': [0.5, 0.6, 0.3], 'n_climb': 1, 'n_descent': 1},
-            'lto': {'fuel_flow': [0.11, 0.343, 1.031, 1.293], 'EI_NOx': [4.36, 9.09, 17.89, 23.94],
-                    'EI_HC': [1.54, 0.05, 0.02, 0.03], 'EI_CO': [29.39, 2.82, 0.17, 0.31],
-                    'thrust_pct': [7.0, 30.0, 85.0, 100.0], 'SN': [2.1, 2.1, 11.2, 13.4],
-                    'nvPM_mass': [0.74, 1.72, 44.0, 70.8], 'nvPM_num': [2.66e13, 7.1e13, 4.33e14, 4.02e14],
-                    'PR': 29.0, 'BPR': 5.1, 'engine_type': 'TF', 'EImass_max': 70.8, 'EImass_max_thrust': -1.0,
-                    'EInum_max': 4.33e14, 'EInum_max_thrust': -1.0, 'n_eng': 2},
-            'apu': {'kind': 'probe', 'fuel_kg_per_s': 0.03, 'NOx_g_per_kg': 6.0, 'CO_g_per_kg': 5.0,
-                    'HC_g_per_kg': 0.4, 'PM10_g_per_kg': 0.05},
-            'fuel': {'name': 'Jet-A', 'energy_MJ_per_kg': 43.2, 'EI_H2O': 1233.3865, 'EI_CO2': 3155.6,
-                     'non_volatile_carbon_fraction': 0.95, 'lifecycle_CO2': 89.0, 'fuel_sulfur_content_nom': 600.0,
-                     'sulfate_yield_nom': 0.02},
-            'class': 'narrow'}
-    return is_f9(case, run_impl(case))
+def is_fc11a(case, r):
+    """pmvol_method = foa3 -> AttributeError ('numpy.str_' object has no attribute 'thrust_percentage')
+    in trajectory.py:_thrust_percentages_from_categories, for every trajectory."""
+    return (r.get('error') == 'AttributeError' and 'thrust_percentage' in r.get('msg', '')
+            and case['cfg']['pmvol_method'] == 'foa3')
+
+
+def meem_degenerate(case):
+    """ei/pmnvol.py:PMnvol_MEEM: at a climbing point the pressure coefficient
+    0.85 + 0.3*(alt - 3000)/max(1, max_alt - 3000) is so negative that P3 = Pt*(1 + coef*(PR - 1)) <= 0
+    (low cruise altitude); the fractional power of P3/Pt is then NaN."""
+    alt, pr = case['traj']['altitude'], case['lto']['PR']
+    mx = max(alt)
+    for i in range(1, len(alt)):
+        if alt[i] > alt[i - 1]:
+            coef = 0.85 + 0.3 * (alt[i] - 3000.0) / max(1.0, mx - 3000.0)
+            if 1.0 + coef * (pr - 1.0) <= 0.0:
+                return True
+    return False
+
+
+def is_fc01a(case, bad):
+    """every non-finite amount is a trajectory/total PMnvol* amount under MEEM on a degenerate profile"""
+    if case['cfg']['pmnvol_method'] != 'meem' or not meem_degenerate(case):
+        return False
+    import re
+    return all(c == 'finite' and re.match(r'(traj_em|total)\[PMnvol(GMD|N)?\]', d) for c, d in bad)
+
+
+PROBE = {'traj': {'fuel_mass': [100.0, 90.0, 80.0], 'altitude': [0.0, 9000.0, 0.0], 'tas': [120.0, 200.0, 120.0],
+                  'fuel_flow': [0.5, 0.6, 0.3], 'n_climb': 1, 'n_descent': 1},
+         'lto': {'fuel_flow': [0.11, 0.343, 1.031, 1.293], 'EI_NOx': [4.36, 9.09, 17.89, 23.94],
+                 'EI_HC': [1.54, 0.05, 0.02, 0.03], 'EI_CO': [29.39, 2.82, 0.17, 0.31],
+                 'thrust_pct': [7.0, 30.0, 85.0, 100.0], 'SN': [2.1, 2.1, 11.2, 13.4],
+                 'nvPM_mass': [0.74, 1.72, 44.0, 70.8], 'nvPM_num': [2.66e13, 7.1e13, 4.33e14, 4.02e14],
+                 'PR': 29.0, 'BPR': 5.1, 'engine_type': 'TF', 'EImass_max': 70.8, 'EImass_max_thrust': -1.0,
+                 'EInum_max': 4.33e14, 'EInum_max_thrust': -1.0, 'n_eng': 2},
+         'apu': {'kind': 'probe', 'fuel_kg_per_s': 0.03, 'NOx_g_per_kg': 6.0, 'CO_g_per_kg': 5.0,
+                 'HC_g_per_kg': 0.4, 'PM10_g_per_kg': 0.05},
+         'fuel': {'name': 'Jet-A', 'energy_MJ_per_kg': 43.2, 'EI_H2O': 1233.3865, 'EI_CO2': 3155.6,
+                  'non_volatile_carbon_fraction': 0.95, 'lifecycle_CO2': 89.0, 'fuel_sulfur_content_nom': 600.0,
+                  'sulfate_yield_nom': 0.02},
+         'class': 'narrow'}
+
+
+def tree_state():
+    """Which behaviour does this tree have?  {'F9': defect present?, 'FC11a': defect present?}
+    (before / after the proposed fixes; the Coq model has a switch for each)."""
+    c9 = {**PROBE, 'cfg': {**DEFAULT_CFG, 'sox_enabled': False, 'lifecycle_enabled': False}}
+    c11 = {**PROBE, 'cfg': {**DEFAULT_CFG, 'pmvol_method': 'foa3', 'lifecycle_enabled': False}}
+    return {'F9': is_f9(c9, run_impl(c9)), 'FC11a': is_fc11a(c11, run_impl(c11))}
 
 
 # ---------------------------------------------------------------------------
@@ -626,7 +670,7 @@ def extracted_vs_python(chk: Check):
     hdr = ('From Coq Require Import ZArith List PrimFloat.\nFrom AV Require Import lib.Num lib.FloatMath model.C11_Model '
            'model.C01_Model.\nFrom Gen Require Import C01_Extracted.\nImport ListNotations.\nOpen Scope float_scope.\n')
     exprs = [f"@EI_SOx FNum {fl(f['fuel_sulfur_content_nom'])} {fl(f['sulfate_yield_nom'])}" for f in fuels]
-    exprs.append('(@x_sp_no FNum, @x_sp_no2 FNum, @x_sp_hono FNum, @x_lto_tims FNum)')
+    exprs += ['@x_sp_no FNum', '@x_sp_no2 FNum', '@x_sp_hono FNum', '@x_lto_tims FNum']
     classes = ['wide', 'narrow', 'small', 'freight']
     gfuel = [gen_fuel(rng) for _ in classes]
     for k, f in zip(classes, gfuel):
@@ -646,11 +690,11 @@ def extracted_vs_python(chk: Check):
         ok &= close(list(got), [r.EI_SOx, r.EI_SO2, r.EI_SO4], rel=1e-13)
     sp = NOx_speciation()
     tmv = lambda x: [float(x[m]) for m in ThrustMode]  # noqa: E731
-    got = vals[len(fuels)]
+    got = vals[len(fuels):len(fuels) + 4]
     ok &= close([list(g) for g in got], [tmv(sp.no), tmv(sp.no2), tmv(sp.hono), tmv(_LTO_TIMS)], rel=1e-15)
     load_config(DEFAULT_CFG)
     try:
-        for k, f, got in zip(classes, gfuel, vals[len(fuels) + 1:]):
+        for k, f, got in zip(classes, gfuel, vals[len(fuels) + 4:]):
             with contextlib.redirect_stdout(io.StringIO()):
                 r = get_GSE_emissions(AircraftClass(k), Fuel.model_validate(f))
             want = [float(r.emissions[s]) for s in Species] + [float(r.fuel_burn)]
@@ -677,7 +721,7 @@ def nontrivial(case):
     return plateau or windowed or case['cfg'] != DEFAULT_CFG
 
 
-def check_cases(chk: Check, cases, f9_present: bool, real_every: int = 7):
+def check_cases(chk: Check, cases, state: dict, real_every: int = 7):
     impl = [run_impl(c, i, real_container=(i % real_every == 3)) for i, c in enumerate(cases)]
     exprs, where = [], []
     for i, (c, r) in enumerate(zip(cases, impl)):
@@ -699,12 +743,14 @@ def check_cases(chk: Check, cases, f9_present: bool, real_every: int = 7):
             if want and r['error'] == want[0] and want[1] in r['msg'].lower():
                 chk.count('outcome:refused-' + want[1])
                 chk.traces_validated += 1
-            elif is_f9(c, r):
-                chk.count('outcome:F9')
-                # belongs to C11 (internal error for an option combination); here the combination is simply not
-                # a "supported combination" of C01's quantifier — but only while the tree has the defect
-                if not f9_present:
-                    chk.fail(f"KeyError {r['key']} from compute_emissions", {'case': c, 'impl': r}, signature=F9_SIGNATURE)
+            elif is_f9(c, r) or is_fc11a(c, r):
+                fid = 'F9' if is_f9(c, r) else 'FC11a'
+                chk.count('outcome:' + fid)
+                # an internal error for an option combination belongs to C11; while the tree has that defect the
+                # combination is not a "supported combination" of C01's quantifier.  On a repaired tree it is.
+                if not state[fid]:
+                    chk.fail(f"{r['error']} from compute_emissions: {r['msg'][:120]}", {'case': c, 'impl': r},
+                             signature=F9_SIGNATURE if fid == 'F9' else FC11A_SIGNATURE)
             else:
                 chk.fail(f"compute_emissions raised {r['error']}: {r['msg'][:200]} for a supported combination",
                          {'case': c, 'impl': r}, signature=None)
@@ -715,7 +761,7 @@ def check_cases(chk: Check, cases, f9_present: bool, real_every: int = 7):
         if bad:
             clause, detail = bad[0]
             chk.fail(f'inventory not balanced — {clause}: {detail}',
-                     {'case': c, 'violations': bad[:6]}, signature=None)
+                     {'case': c, 'violations': bad[:6]}, signature=FC01A_SIGNATURE if is_fc01a(c, bad) else None)
             continue
         m = mod_by_case.get(i)
         if m is None:
@@ -752,8 +798,9 @@ def run(chk: Check):
     chk.coq_props('props/C01_Props.v')
     extract(chk)
     extracted_vs_python(chk)
-    f9 = tree_has_f9()
-    chk.notes['tree_has_F9'] = f9
+    state = tree_state()
+    chk.notes['tree_state'] = {k: ('defect present' if v else 'repaired') for k, v in state.items()}
+    chk.notes['shipped_apus_satisfy_carbon_ok'] = all(carbon_ok(a) for a in shipped_apus())
     cases = load_corpus(chk)
     n_cfg = chk.n(300, 4000)
     for _ in range(n_cfg):
@@ -761,7 +808,7 @@ def run(chk: Check):
         cases.append(gen_case(chk.rng, cfg))
         cases.append(gen_case(chk.rng, cfg))
     cases.append(gen_case(chk.rng, dict(DEFAULT_CFG)))
-    check_cases(chk, cases, f9)
+    check_cases(chk, cases, state)
 
 
 def replay(chk: Check, rp):
@@ -769,4 +816,4 @@ def replay(chk: Check, rp):
     extract(chk)
     case = (rp.get('case') or {}).get('case')
     if case:
-        check_cases(chk, [case], tree_has_f9(), real_every=10 ** 9)
+        check_cases(chk, [case], tree_state(), real_every=10 ** 9)
